@@ -457,3 +457,47 @@ def stream_interaction(ctx):
 
 def run(ctx):
     return [stream_sets(ctx), stream_ladder(ctx), stream_srl(ctx), stream_random(ctx), stream_interaction(ctx)]
+
+
+# ---------------------------------------------------------------- replay of a recorded failing input
+
+def replay(ctx, payload):
+    """True: the recorded input no longer fails; False: still fails; None: not replayable"""
+    from common import gq_to_complex
+    from c04 import _op_from_json, _arr, ERRS
+    of = ctx.of
+    bk, bkt, fw = mods(ctx)
+    v = payload.get('violation')
+    if not v:
+        return None
+    case, detail = v.get('input', {}), v.get('detail', {})
+    req = detail.get('request')
+    if not req:
+        return None
+    req = dict(req)
+    try:
+        fn = case.get('fn')
+        if fn in ('bk', 'tree') and 'fermion' in case:
+            f = of.transforms.bravyi_kitaev if fn == 'bk' else of.transforms.bravyi_kitaev_tree
+            req['Q'] = enc_op('qubit', f(_op_from_json(of, 'fermion', case['fermion']), case['n_qubits']).terms)
+        elif fn == 'bk' and 'majorana' in case:
+            M = of.MajoranaOperator.from_dict({tuple(i for i, _ in t): gq_to_complex(c) for t, c in case['majorana']})
+            req['Q'] = enc_op('qubit', of.transforms.bravyi_kitaev(M, case['n_qubits']).terms)
+        elif fn == '_seeley_richard_love':
+            ops, coefs = bk._seeley_richard_love(case['i'], case['j'], gq_to_complex(case['coef']), case['n_qubits'])
+            req['Q'] = enc_op('qubit', bk._qubit_operator_creation(ops, coefs).terms)
+        elif fn == 'bravyi_kitaev' and 'interaction_operator' in case:
+            d = case['interaction_operator']
+            N = d['N']
+            iop = of.InteractionOperator(gq_to_complex(d['constant']), _arr(d['one'], (N, N)), _arr(d['two'], (N,) * 4))
+            req['Q'] = enc_op('qubit', of.transforms.bravyi_kitaev(iop, case['n_qubits']).terms)
+        elif fn == '_update_set/_occupation_set/_parity_set':
+            j, n = case['index'], case['n']
+            req.update({'update': sorted(bk._update_set(j, n)), 'occupation': sorted(bk._occupation_set(j)),
+                        'parity': sorted(bk._parity_set(j))})
+            return ctx.driver.one(req) is True
+        else:
+            return None
+    except ERRS:
+        return False
+    return bool(ctx.driver.one(req)['eq'])
